@@ -1,6 +1,6 @@
 (* Line protocol for the extracted C16 models.  Trusted: tokenising, int<->N conversion, printing.
    Request:  <cmd> <flags> <target-label> <db tokens...>
-     cmd = T (translate)  V (reference verifier)  X (translate + verify with the checker model)
+     cmd = T (translate)  V (reference verifier)  G (in_fragment)  X (translate + verify with the checker model)
    Database tokens (whitespace separated), items in order:
      F <label> <tc> <v>
      A <label> <k> (<label> <stmt>)*k <stmt>
@@ -84,6 +84,7 @@ let run line =
   let d = parse_db tk 3 in
   match cmd with
   | "V" -> if mm_verify d target then "1" else "0"
+  | "G" -> if in_fragment d target then "1" else "0"
   | "T" | "X" ->
     (match translate_gen allc d target with
      | None -> "NONE"
